@@ -65,6 +65,11 @@ Proof. vm_compute. reflexivity. Qed.
 Lemma pp_regex_generated : gen_pp_regex_violations = 0 /\ Nat.leb 4 gen_pp_patterns = true.
 Proof. split; vm_compute; reflexivity. Qed.
 
+(* the other regular expressions of the expansion path (#iferror detector, #time splitter, #expr tokenizer, scanner, parser name
+   matchers): all seven are the reviewed ones, none nests overlapping unbounded repetitions (generated counts) *)
+Lemma regexes_generated : gen_regex_violations = 0 /\ Nat.leb 7 gen_regex_patterns = true.
+Proof. split; vm_compute; reflexivity. Qed.
+
 (* no magic reads a lazily expanded positional argument more than once on one control path beyond the allow-list *)
 Lemma arg_reads_generated : gen_arg_reread_violations = 0.
 Proof. vm_compute. reflexivity. Qed.
